@@ -4,6 +4,7 @@ runs the *model definitions the theorems are about* and prints one canonical lin
 observation. The harness prints the same lines from the real library; `diff` is the verdict.
 -/
 import MRL.Model.Disk
+import MRL.Proofs.Journal
 
 open MRL
 
@@ -127,6 +128,11 @@ structure St where
   /-- incremental crash-image cache: image after the first `baseK` operations -/
   baseK : Nat := 0
   baseImg : Image := []
+  /-- `snapshot` / `restore` of the directory (damage campaigns) -/
+  snap : Image := []
+  /-- the journal of every entry written since the case started (clean histories only) -/
+  journal : List JE := []
+  journalOk : Bool := false
 
 def geom : Geom := { B := Consts.BLOCK, K := Consts.BLOCKS_PER_FILE_VERIF, hB := by decide, hK := by decide }
 
@@ -151,14 +157,25 @@ def stateLines (msz : Nat) (l : Log) : List String :=
 def dirLine (img : Image) : String :=
   "D " ++ joinS " " (img.map fun (f, c) => s!"{f}:{c.length}:{fnvS c}")
 
+/-- the journal invariant: replaying the journal entries located in tracked files gives the queues -/
+def jcheck (l : Log) (j : List JE) : Bool :=
+  match replayJ (l.files.headD 0) [] j with
+  | some qs => qsEquivB qs l.queues
+  | none => false
+
 def openOn (st : St) (img : Image) (toks : List String) (failAt : Option Nat) : St × List String :=
   let policy := parsePolicy (toks.getD 1 "always:flush")
   match recover geom img policy (parseOrder toks) failAt with
   | .error .io => ({ st with log := none, disk := img, pending := [], buf := {} }, ["O err:io"])
   | .error .corruption => ({ st with log := none, disk := img, pending := [], buf := {} }, ["O err:corruption"])
   | .ok r =>
-    let st1 : St := { st with log := some r.log, disk := img, pending := [], buf := {} }
-    (st1.absorb r.effects, [s!"O ok io={r.ioCalls}", effLine r.effects])
+    -- journal: the GC pass of `open` may have written empty-queue positions
+    let j := match recoverPre geom img policy failAt with
+      | .ok (lp, _, _) => st.journal ++ lp.gcJ geom (parseOrder toks)
+      | .error _ => st.journal
+    let ok := st.journalOk && jcheck r.log j
+    let st1 : St := { st with log := some r.log, disk := img, pending := [], buf := {}, journal := j, journalOk := ok }
+    (st1.absorb r.effects, [s!"O ok io={r.ioCalls}", effLine r.effects] ++ (if st.journalOk && !ok then ["J journal-invariant-broken"] else []))
 
 def callOf (toks : List String) : Option Call :=
   match toks with
@@ -173,9 +190,9 @@ def callOf (toks : List String) : Option Call :=
   | _ => none
 
 /-- one operation on a state; returns output lines -/
-def runOp (msz : Nat) (st : St) (toks : List String) : St × List String :=
+def runOp (msz : Nat) (jc : Bool) (st : St) (toks : List String) : St × List String :=
   match toks with
-  | "open" :: _ => openOn { st with opsRev := [], baseK := 0, baseImg := [] } [] toks none
+  | "open" :: _ => openOn { st with opsRev := [], baseK := 0, baseImg := [], journal := [], journalOk := jc } [] toks none
   | "reopen" :: _ =>
     -- drop: the `BufWriter` is flushed, then the directory is opened again
     let st1 := (st.absorb [.flush]).sync
@@ -185,6 +202,35 @@ def runOp (msz : Nat) (st : St) (toks : List String) : St × List String :=
     let failAt := (kvGet toks "fail").bind (·.toNat?)
     let (st2, out) := openOn st1 st1.disk toks failAt
     (st2, out)
+  | "close" :: _ => ({ (st.absorb [.flush]).sync with log := none, journalOk := false }, [])
+  | "snapshot" :: _ => let st1 := st.sync; ({ st1 with snap := st1.disk }, [])
+  | "restore" :: _ => ({ st.sync with disk := st.snap, log := none, journalOk := false }, [])
+  | "poke" :: f :: off :: d :: _ =>
+    let st1 := st.sync
+    ({ st1 with disk := mapFile st1.disk f.toNat! fun c => overwrite c off.toNat! (parsePayload d), journalOk := false }, [])
+  | "setlen" :: f :: n :: _ =>
+    let st1 := st.sync
+    ({ st1 with disk := mapFile st1.disk f.toNat! fun c => setLenBytes c n.toNat!, journalOk := false }, [])
+  | "rmfile" :: f :: _ =>
+    let st1 := st.sync
+    ({ st1 with disk := st1.disk.filter (·.1 != f.toNat!), journalOk := false }, [])
+  | "copyfile" :: a :: b :: _ =>
+    let st1 := st.sync
+    match st1.disk.find? (·.1 == a.toNat!) with
+    | some (_, c) =>
+      let d0 := st1.disk.filter (·.1 != b.toNat!)
+      ({ st1 with disk := mapFile (insertFile d0 b.toNat! []) b.toNat! (fun _ => c), journalOk := false }, [])
+    | none => (st1, [])
+  | "copyblock" :: f1 :: i1 :: f2 :: i2 :: _ =>
+    let st1 := st.sync
+    let bsz := Consts.BLOCK
+    match st1.disk.find? (·.1 == f1.toNat!), st1.disk.find? (·.1 == f2.toNat!) with
+    | some (_, c1), some (_, c2) =>
+      if c1.length ≥ i1.toNat! * bsz + bsz ∧ c2.length ≥ i2.toNat! * bsz + bsz then
+        let blk := (c1.drop (i1.toNat! * bsz)).take bsz
+        ({ st1 with disk := mapFile st1.disk f2.toNat! fun c => overwrite c (i2.toNat! * bsz) blk, journalOk := false }, [])
+      else (st1, [])
+    | _, _ => (st1, [])
   | "state" :: _ =>
     match st.log with
     | some l => (st, stateLines msz l)
@@ -200,12 +246,16 @@ def runOp (msz : Nat) (st : St) (toks : List String) : St × List String :=
     match callOf toks, st.log with
     | some c, some l =>
       let (l', out, es) := l.step geom c (parseTick toks) (parseOrder toks)
-      let st1 := { st with log := some l' }
-      (st1.absorb es, [outcomeS out, effLine es])
+      let j := st.journal ++ l.stepJ geom c (parseOrder toks)
+      let ok := st.journalOk && jcheck l' j
+      let st1 := { st with log := some l', journal := j, journalOk := ok }
+      (st1.absorb es, [outcomeS out, effLine es] ++ (if st.journalOk && !ok then ["J journal-invariant-broken"] else []))
     | _, _ => (st, ["? bad-op"])
 
 structure Top where
   msz : Nat := Consts.META_SIZE
+  /-- check the journal invariant after every call (`option jcheck` line; quadratic) -/
+  jc : Bool := false
   main : St := {}
   side : St := {}
 
@@ -228,13 +278,14 @@ def runLine (top : Top) (line : String) : Top × List String :=
   | [""] => (top, [])
   | "case" :: _ => ({ msz := top.msz }, [line.trimAscii.toString])
   | "meta" :: n :: _ => ({ top with msz := n.toNat! }, [])
+  | "option" :: "jcheck" :: _ => ({ top with jc := true }, [])
   | "crash" :: _ => runCrash top toks
   | t :: rest =>
     if t.startsWith "c:" then
-      let (s, out) := runOp top.msz top.side ((t.drop 2).toString :: rest)
+      let (s, out) := runOp top.msz false top.side ((t.drop 2).toString :: rest)
       ({ top with side := s }, out.map ("c:" ++ ·))
     else
-      let (s, out) := runOp top.msz top.main toks
+      let (s, out) := runOp top.msz top.jc top.main toks
       ({ top with main := s }, out)
   | [] => (top, [])
 
